@@ -19,11 +19,20 @@ use crate::ast::Position;
 use super::translate::OpsMap;
 use super::{Error, Op};
 
-#[derive(Debug, PartialEq, Clone)]
+#[derive(Debug, Clone)]
 pub struct OpPointer {
     pub pos_map: Rc<OpsMap>,
     pub ptr: Option<usize>,
     pub path: Option<PathBuf>,
+}
+
+// Pointers into one program share its ops: no need to compare them op by op.
+impl PartialEq for OpPointer {
+    fn eq(&self, other: &Self) -> bool {
+        self.ptr == other.ptr
+            && self.path == other.path
+            && (Rc::ptr_eq(&self.pos_map, &other.pos_map) || self.pos_map == other.pos_map)
+    }
 }
 
 impl OpPointer {
